@@ -179,7 +179,7 @@ impl Mappable for ClassFile {
 			nest_members: self.nest_members.remap(remapper)?,
 			permitted_subclasses: self.permitted_subclasses.remap(remapper)?,
 
-			record_components: Vec::new(), // TODO (takes in self.name as well)
+			record_components: self.record_components.remap_with_class_name(remapper, &self.name)?,
 
 			attributes: self.attributes,
 		})
@@ -603,5 +603,26 @@ impl Mappable for MethodParameter {
 	fn remap(self, remapper: &impl BRemapper) -> Result<Self> {
 		// TODO: remapper doesn't support parameter names yet!
 		Ok(self)
+	}
+}
+
+impl MappableWithClassName for duke::tree::record::RecordComponent {
+	fn remap_with_class_name(self, remapper: &impl BRemapper, this_class: &ObjClassName) -> Result<Self> {
+		// a record component is backed by the field of the same name and descriptor
+		let field_name = duke::tree::field::FieldName::try_from(self.name.into_inner())?;
+		let name_and_desc = remapper.map_field(this_class, &field_name, &self.descriptor)?;
+		Ok(duke::tree::record::RecordComponent {
+			name: name_and_desc.name.into_inner().try_into()?,
+			descriptor: name_and_desc.desc,
+
+			signature: self.signature.remap(remapper)?,
+
+			runtime_visible_annotations: self.runtime_visible_annotations.remap(remapper)?,
+			runtime_invisible_annotations: self.runtime_invisible_annotations.remap(remapper)?,
+			runtime_visible_type_annotations: self.runtime_visible_type_annotations.remap(remapper)?,
+			runtime_invisible_type_annotations: self.runtime_invisible_type_annotations.remap(remapper)?,
+
+			attributes: self.attributes,
+		})
 	}
 }
